@@ -108,7 +108,7 @@ def judge(check, scenarios, name, trace, runs, v, module, consts, allow_relax=Tr
         check.drift.append("%s: %d run(s) of the real code are not behaviours of %s (first unmatched event: %s)" % (name, len(mis_runs), module, json.dumps(ev0)[:300]))
         # fall back to the L1-only oracle for those runs
         sub, sub_runs = subtrace(trace, mis_runs, "l1")
-        c1 = l1_consts if l1_consts is not None else {k: consts[k] for k in ("N", "Procs", "RelaxEmpty", "Prefill") if k in consts}
+        c1 = l1_consts if l1_consts is not None else {k: consts[k] for k in ("N", "Procs", "RelaxEmpty", "Prefill", "Mode") if k in consts}
         v1 = validate_trace(sub, sub_runs, l1_module, c1, "%s_%s_l1" % (check.prop, name), parallel=4)
         for e in v1["errors"]:
             check.tool_errors.append("L1 re-validation %s: %s" % (name, e))
